@@ -1,7 +1,6 @@
 (* C13 - the four resonator strategies, instantiating the generic sections. *)
 From Coq Require Import Reals List Lra Psatz.
 From Coquelicot Require Import Complex.
-From Interval Require Import Tactic.
 From AL Require Import C13.Model C13.Spec C13.Proofs_Base C13.Proofs_Ord1 C13.Proofs_LPHP C13.Proofs_Ord2
   C13.Proofs_Reson.
 Import ListNotations.
@@ -179,12 +178,26 @@ Proof.
 Qed.
 End Resonators.
 
-(* the unconditional pole-radius claim fails for resonator.z_exp inside the stated domain *)
+(* the unconditional pole-radius claim fails for resonator.z_exp inside the stated domain:
+   freq = 1/10, bandwidth = 1 (cos(1/10) > 0.995, R = exp(-1/2) < 2/3, so cost > 1) *)
 Lemma resonator_z_exp_pole_radius_refuted :
   exists freq bw, 1 / 1000 <= freq <= PI - 1 / 1000 /\ 1 / 1000 <= bw <= 1 /\
     ~ poles_have_modulus (resonator_z_exp freq bw) (exp (- bw / 2)).
 Proof.
-  exists (1 / 10), 1. split; [split; [lra|interval with (i_prec 60)]|]. split; [lra|].
+  pose proof PI2_1 as Hpi.
+  exists (1 / 10), 1. split; [lra|]. split; [lra|].
   apply resonator_z_exp_real_poles; [lra|].
-  unfold z_exp_cost, resonator_R. cbv zeta. interval with (i_prec 60).
+  unfold z_exp_cost. cbv zeta.
+  pose proof (resonator_R_range 1 ltac:(lra)) as Hr. set (r := resonator_R 1) in *.
+  assert (Hr23 : r < 2 / 3).
+  { assert (E : r = / exp (1 / 2)).
+    { unfold r. rewrite resonator_R_eq. rewrite <- exp_Ropp. f_equal. field. }
+    pose proof (exp_ineq1 (1 / 2) ltac:(lra)) as He. rewrite E.
+    apply Rmult_lt_reg_r with (exp (1 / 2)); [lra|]. rewrite Rinv_l by lra. lra. }
+  assert (Hc : 199 / 200 < cos (1 / 10)).
+  { replace (1 / 10) with (2 * (1 / 20)) by field. rewrite cos_2a_sin.
+    pose proof (sin_lt_x (1 / 20) ltac:(lra)) as Hs.
+    assert (Hs0 : 0 < sin (1 / 20)) by (apply sin_gt_0; lra). nra. }
+  apply Rmult_lt_reg_r with (2 * r); [lra|].
+  unfold Rdiv. rewrite Rmult_assoc, Rinv_l by lra. nra.
 Qed.
